@@ -110,7 +110,7 @@ func c05(r *core.Run) {
 	r.Rule("D1", "exhaustive dispatch: the request-type constants the dispatcher switches on = the request types subscribe() subscribes to", 1)
 	r.Rule("D2", "method lookup: call and auth alike index the method map by the request's method, fall back to \"*\" on the nil edge, reply methodNotFound when still nil and call exactly that value; call.new prefers the New handler when set", 4)
 	r.Rule("D3", "method split agreement: the request types for which the message handler strips a trailing method token = the types for which subscribe appends a method wildcard", 1)
-	r.Rule("E1", "error mapping: in every recover closure the *Error arm passes the asserted value itself to the error reply, all other arms pass ToError/InternalError results; InternalError builds an Error with the internal-error code constant; ToError returns its argument when it already is an *Error", 8)
+	r.Rule("E1", "error mapping: in every recover closure the *Error arm passes the asserted value itself to the error reply, all other arms pass ToError/InternalError results; InternalError builds an Error with the internal-error code constant; ToError returns its argument when it already is an *Error", 5)
 	r.Rule("E2", "static outcomes: no-resource and get-without-handler reply with the notFound literal, unknown call/auth method with the methodNotFound literal, a handler that returned without replying reaches the fallback that replies with an internalError literal; literals carry the matching Code* constant", 6)
 
 	root := p.FuncsOfPkg("")
@@ -135,6 +135,24 @@ func c05(r *core.Run) {
 	if proc == nil {
 		r.Unres("M1", "processRequest", "dispatcher has no caller")
 		return
+	}
+
+	// the dispatch body: the function of the dispatcher unit (the dispatcher or one of its private
+	// helpers) that holds the handler calls
+	body := d
+	{
+		best := -1
+		for _, f2 := range p.Helpers(d) {
+			n := 0
+			for _, c := range core.Calls(f2) {
+				if core.IsDynamic(c) && mReq.takesT(c) {
+					n++
+				}
+			}
+			if n > best {
+				best, body = n, f2
+			}
+		}
 	}
 
 	// ---- M1 --------------------------------------------------------------
@@ -361,7 +379,7 @@ func c05(r *core.Run) {
 	}
 	dispTypes := map[string]bool{}
 	rtype := core.Field{Struct: "Request", Name: "rtype"}
-	for _, b := range d.Blocks {
+	for _, b := range body.Blocks {
 		for _, in := range b.Instrs {
 			if bo, ok := in.(*ssa.BinOp); ok && bo.Op == token.EQL {
 				if f, ok := core.LoadedField(bo.X); ok && f == rtype {
@@ -377,7 +395,7 @@ func c05(r *core.Run) {
 		subTypes[t] = true
 	}
 	a1, a2 := strings.Join(core.SortedKeys(dispTypes), ","), strings.Join(core.SortedKeys(subTypes), ",")
-	r.Check(a1 == a2 && len(dispTypes) >= 4, "D1", core.FuncName(d), "dispatch-types==subscribed-types", p.Pos(d.Pos()), "both are {"+a1+"}", "dispatcher handles {"+a1+"} but subscribe() subscribes {"+a2+"}: a subscribed type would fall into the unanswered default arm (or a dispatched type is never delivered)")
+	r.Check(a1 == a2 && len(dispTypes) >= 4, "D1", core.FuncName(body), "dispatch-types==subscribed-types", p.Pos(body.Pos()), "both are {"+a1+"}", "dispatcher handles {"+a1+"} but subscribe() subscribes {"+a2+"}: a subscribed type would fall into the unanswered default arm (or a dispatched type is never delivered)")
 	// D3: handleRequest method stripping
 	for _, c := range callsTo(root, proc) {
 		h := core.Outermost(c.Parent())
@@ -417,7 +435,7 @@ func c05(r *core.Run) {
 		}
 	}
 	shapes := map[string]string{}
-	for _, c := range core.Calls(d) {
+	for _, c := range core.Calls(body) {
 		if !core.IsDynamic(c) {
 			continue
 		}
@@ -499,17 +517,17 @@ func c05(r *core.Run) {
 						code = literalErrorCode(p, lit)
 					}
 					shapes[mapField.Name] = fmt.Sprintf("method=%v star=%v starOnNil=%v nilLeaf=%v nilReplyCode=%s", byMethod, byStar, starAfter, nilLeaf, code)
-					r.Check(code == stringConsts(p, "")["CodeMethodNotFound"], "E2", core.FuncName(d), "unknown-method("+mapField.Name+")->CodeMethodNotFound", p.InstrPos(ed.If), "no handler for the method: replies with a literal carrying "+code, "the unknown-method edge replies with code "+code)
+					r.Check(code == stringConsts(p, "")["CodeMethodNotFound"], "E2", core.FuncName(body), "unknown-method("+mapField.Name+")->CodeMethodNotFound", p.InstrPos(ed.If), "no handler for the method: replies with a literal carrying "+code, "the unknown-method edge replies with code "+code)
 				}
 			}
 			_ = ci
 		}
 		good := byMethod && byStar && starAfter && callGuard
-		r.Check(good, "D2", core.FuncName(d), "lookup("+mapField.String()+"):[method]->[*]->notFound", p.InstrPos(c), "handler = map[method], else map[\"*\"], called only when non-nil", fmt.Sprintf("method lookup shape broken: byMethod=%v byStar=%v starOnlyAfterMiss=%v guardedCall=%v", byMethod, byStar, starAfter, callGuard))
+		r.Check(good, "D2", core.FuncName(body), "lookup("+mapField.String()+"):[method]->[*]->notFound", p.InstrPos(c), "handler = map[method], else map[\"*\"], called only when non-nil", fmt.Sprintf("method lookup shape broken: byMethod=%v byStar=%v starOnlyAfterMiss=%v guardedCall=%v", byMethod, byStar, starAfter, callGuard))
 	}
-	r.Check(shapes["Call"] != "" && shapes["Call"] == shapes["Auth"], "D2", core.FuncName(d), "call-and-auth-lookups-agree", p.Pos(d.Pos()), "both: "+shapes["Call"], "call and auth lookups differ: Call{"+shapes["Call"]+"} Auth{"+shapes["Auth"]+"}")
+	r.Check(shapes["Call"] != "" && shapes["Call"] == shapes["Auth"], "D2", core.FuncName(body), "call-and-auth-lookups-agree", p.Pos(body.Pos()), "both: "+shapes["Call"], "call and auth lookups differ: Call{"+shapes["Call"]+"} Auth{"+shapes["Auth"]+"}")
 	// new special case
-	for _, c := range core.Calls(d) {
+	for _, c := range core.Calls(body) {
 		if !core.IsDynamic(c) {
 			continue
 		}
@@ -521,7 +539,7 @@ func c05(r *core.Run) {
 			cs := strings.Join(conds, "&")
 			good := strings.Contains(cs, method.String()+`=="new"`) && strings.Contains(cs, "Handler.New!=nil") && strings.Contains(cs, `Request.rtype=="call"`)
 			// it precedes the generic lookup: no Lookup on Handler.Call dominates it
-			for _, b := range d.Blocks {
+			for _, b := range body.Blocks {
 				for _, in := range b.Instrs {
 					if lk, ok := in.(*ssa.Lookup); ok {
 						if mf, ok := core.LoadedField(lk.X); ok && mf.Name == "Call" && core.Dominates(lk, c) {
@@ -530,7 +548,7 @@ func c05(r *core.Run) {
 					}
 				}
 			}
-			r.Check(good, "D2", core.FuncName(d), "new-prefers-New-handler", p.InstrPos(c), "call.<rid>.new goes to the New handler when one is set, before the Call map is consulted", "the New handler is not selected exactly for call requests with method new and a non-nil New handler: "+cs)
+			r.Check(good, "D2", core.FuncName(body), "new-prefers-New-handler", p.InstrPos(c), "call.<rid>.new goes to the New handler when one is set, before the Call map is consulted", "the New handler is not selected exactly for call requests with method new and a non-nil New handler: "+cs)
 		}
 	}
 
@@ -545,7 +563,13 @@ func c05(r *core.Run) {
 			if cl == nil {
 				continue
 			}
-			for _, c := range core.Calls(cl) {
+			var unit []ssa.CallInstruction // the recover function, its private helpers and their local closures
+			for _, h := range p.Helpers(cl) {
+				for _, f2 := range withAnon(h) {
+					unit = append(unit, core.Calls(f2)...)
+				}
+			}
+			for _, c := range unit {
 				cal := c.Common().StaticCallee()
 				if cal == nil || !m.may[cal] || !m.takesT(c) {
 					continue
@@ -661,51 +685,47 @@ func c05(r *core.Run) {
 		}
 	}
 	expect(proc, "param:mh==nil", "CodeNotFound", "no-resource")
-	expect(d, "Handler.Get==nil", "CodeNotFound", "get-without-handler")
+	expect(body, "Handler.Get==nil", "CodeNotFound", "get-without-handler")
 	expect(d, "!"+mReq.flag.String(), "CodeInternalError", "missing-reply")
-	// every handler return reaches the missing-reply fallback
-	var tail *ssa.BasicBlock
-	for _, b := range d.Blocks {
-		if iff, ok := b.Instrs[len(b.Instrs)-1].(*ssa.If); ok {
-			ci := core.Cond(iff.Cond)
-			if ci.Kind == "boolfield" && ci.Field == mReq.flag {
-				tail = b
-			}
-		}
-	}
-	for _, c := range core.Calls(d) {
-		if !(core.IsDynamic(c) && mReq.takesT(c)) {
-			continue
-		}
-		ok := tail != nil
-		if ok {
-			// any return reachable from c without passing tail?
-			seen := map[*ssa.BasicBlock]bool{tail: true}
-			st := append([]*ssa.BasicBlock{}, c.Block().Succs...)
-			if c.Block() == tail {
-				ok = true
-				st = nil
-			}
-			// rest of c's own block
-			for _, in := range c.Block().Instrs[instrIdx(c):] {
-				if _, isRet := in.(*ssa.Return); isRet && c.Block() != tail {
-					ok = false
+	// every handler return reaches the missing-reply fallback: with the handler calls as havoc, the
+	// dispatcher unit (private helpers analysed in place) ends in state "replied" on every return
+	// that is not a documented unanswered case
+	{
+		mReq.exemptRet = func(ret *ssa.Return) string {
+			for _, e := range dominatingEdges(ret) {
+				if describeCond(e) == "Handler.Access==nil" {
+					return "no access handler"
 				}
 			}
-			for len(st) > 0 {
-				b := st[len(st)-1]
-				st = st[:len(st)-1]
-				if seen[b] {
-					continue
-				}
-				seen[b] = true
-				if _, isRet := b.Instrs[len(b.Instrs)-1].(*ssa.Return); isRet {
-					ok = false
-				}
-				st = append(st, b.Succs...)
+			var conds []string
+			for _, e := range dominatingEdges(ret) {
+				conds = append(conds, describeCond(e))
 			}
+			if isUnknownTypeReturn(conds) {
+				return "unknown type"
+			}
+			return ""
 		}
-		r.Check(ok, "E2", core.FuncName(d), "handler-return-reaches-missing-reply-fallback:"+valDesc(c.Common().Value), p.InstrPos(c), "after the handler returns, control always reaches the 'not replied -> internal error' fallback", "a handler that returns without replying can leave the dispatcher without passing the missing-reply fallback: the outcome is no response instead of system.internalError")
+		res := mReq.flow(d, core.StateSet(0).Add(stNo))
+		exempt := mReq.exemptRet
+		mReq.exemptRet = nil
+		allYes, where := true, ""
+		for _, ret := range core.Returns(d) {
+			if d.Recover != nil && ret.Block() == d.Recover {
+				continue
+			}
+			st := res.Before[ret]
+			if st.Empty() || st.Only(stYes) || exempt(ret) != "" {
+				continue
+			}
+			allYes, where = false, p.InstrPos(ret)
+		}
+		for _, c := range helperCalls(p, d) {
+			if !(core.IsDynamic(c) && mReq.takesT(c)) {
+				continue
+			}
+			r.Check(allYes, "E2", core.FuncName(d), "handler-return-reaches-missing-reply-fallback:"+valDesc(c.Common().Value), p.InstrPos(c), "after the handler returns, control always reaches the 'not replied -> internal error' fallback", "a handler that returns without replying can leave the dispatcher (return at "+where+") without passing the missing-reply fallback: the outcome is no response instead of system.internalError")
+		}
 	}
 }
 
